@@ -41,13 +41,32 @@ class Native:
             except Exception: self.last_class = None
         return f'{msg}; args={args!r} result={res!r} exc={type(exc).__name__ if exc else None}{": " + str(exc) if exc else ""}'
 
-    def replay_code(self, args):
-        return (f"import sys; sys.argv=['replay','--no-log']; sys.path.insert(0, {ROOT!r})\n"
+    def replay_code(self, args, tier='quick'):
+        # a violation that needs a history (state kept by the code between calls, e.g. a cache) does not show on the single input in a fresh
+        # process: the replay then re-runs, in ONE fresh process, the checks that ran before this one in the same pool task and the enumerated
+        # domain of this check up to and including the failing input
+        head = (f"import sys; sys.argv=['replay','--no-log']; sys.path.insert(0, {ROOT!r})\n"
                 f"import {self.module} as M\n"
                 f"n = M.NATIVE[{self.name!r}]\n"
-                f"msg = n.eval1({args!r})\n"
-                f"print('replay of', n.func, 'on', {args!r}, '->', msg or 'contract holds')\n"
+                f"target = {args!r}\n")
+        hist = (head +
+                f"k = 0; msg = None\n"
+                f"for prior in {list(getattr(self, '_prior', ()))!r}:\n"
+                f"    for a in M.NATIVE[prior].inputs({tier!r}):\n"
+                f"        k += 1; M.NATIVE[prior].eval1(a)\n"
+                f"for a in n.inputs({tier!r}):\n"
+                f"    k += 1; m2 = n.eval1(a)\n"
+                f"    if a == target:\n"
+                f"        msg = m2; break\n"
+                f"print('replay with history:', k, 'calls of the enumerated domain in one process ->', msg or 'contract holds')\n"
                 f"sys.exit(1 if msg else 0)\n")
+        return (head +
+                f"msg = n.eval1(target)\n"
+                f"print('replay of', n.func, 'on', target, '->', msg or 'contract holds')\n"
+                f"if not msg:\n"
+                f"    import subprocess\n"
+                f"    sys.stdout.flush(); sys.exit(subprocess.run([sys.executable, '-c', {hist!r}]).returncode)\n"
+                f"sys.exit(1)\n")
 
     def run(self, tier, prop_key=None, limit_s=None):
         from lib.common import load_findings
@@ -76,7 +95,7 @@ class Native:
         o.evals = n
         if bad:
             args, msg, key = bad
-            o.witness = dict(key=key, text=msg, replay=self.replay_code(args))
+            o.witness = dict(key=key, text=msg, replay=self.replay_code(args, tier))
             o.detail = msg
         if n == 0:
             o.status = 'error'; o.detail = 'empty input domain'
@@ -102,6 +121,7 @@ def run_natives(module, names, tier):
     import importlib
     M = importlib.import_module(module)
     out = []
-    for nm in names:
+    for i, nm in enumerate(names):
+        M.NATIVE[nm]._prior = list(names[:i])          # for replays of history-dependent violations (see replay_code)
         out += M.NATIVE[nm].run_all(tier)
     return out
